@@ -1,9 +1,145 @@
-import Olla.Driver.Util
+import Olla.Driver.Retry
+import Olla.Driver.C02
+import Olla.Driver.C06
+import Olla.Spec.C02
+import Olla.Spec.C04
 
 namespace Olla.Driver.C04
-open Lean Olla.Driver
+open Lean Olla.Driver Olla.Driver.Retry Olla.Model.Retry Olla.Spec.C04
 
-/-- placeholder until the C04 driver is written -/
-def main : IO Unit := pure ()
+def pureResp : Resp := { status := 200, headers := [], body := "0123456789".toUTF8.toList }
+
+def pureAttempt : String → Attempt
+  | "ok" => .ok pureResp
+  | "failBeforeConn" => .failBefore true
+  | "failBeforeOther" => .failBefore false
+  | "skip" => .skip
+  | "failAfterConn" => .failAfter pureResp 5 true
+  | _ => .failAfter pureResp 5 false
+
+def classOfPure : String → Class
+  | "ok" => .serving | "failBeforeConn" => .connFail | "skip" => .skipped | _ => .other
+
+def classOfKind (kind : String) (opened : Bool) : Class :=
+  if opened then .skipped else
+  match kind with
+  | "ok" => .serving | "refuse" => .connFail | "reset0" => .connFail | _ => .other
+
+/-- Selection oracle "first of the preference order that is still available". -/
+def selectPref (pref : List Nat) (avail : List Nat) : Option Nat := pref.find? (avail.contains ·)
+
+/-- Project a model trace to what the pure harness can observe. -/
+def project : List Ev → List (String × Nat × Nat)
+  | [] => []
+  | .selected e :: r => ("selected", e, 0) :: project r
+  | .inc e :: r => ("inc", e, 0) :: project r
+  | .dec e :: r => ("dec", e, 0) :: project r
+  | .wroteHeader e s _ :: r => ("wroteHeader", e, s) :: project r
+  | .wrote e b :: r => ("wrote", e, b.length) :: project r
+  | .markOffline e :: r => ("markOffline", e, 0) :: project r
+  | _ :: r => project r
+
+def perms : List Nat → List (List Nat)
+  | [] => [[]]
+  | l => l.flatMap (fun x => (perms (l.erase x)).map (x :: ·))
+termination_by l => l.length
+decreasing_by
+  simp_wf
+  rename_i h
+  rw [List.length_erase_of_mem h]
+  have := List.length_pos_of_mem h
+  omega
+
+def resultName : Result → String
+  | .served _ => "nil" | .failed _ => "failed" | .exhausted => "exhausted"
+  | .selectFailed => "selectFailed" | .noEndpoints => "noEndpoints"
+
+def handlePure (case : Nat) (j : Json) : IO Unit := do
+  let outs := jstrList (jget j "outcomes")
+  let pref := jnatList (jget j "pref")
+  let impl := jget j "impl"
+  let itrace : List (String × Nat × Nat) := ((jarr (jget impl "trace")).map (fun e => (jstr (jget e "k"), jnat (jget e "e"), jnat (jget e "n")))).filter (·.1 != "contacted")
+  let ires := jstr (jget impl "result")
+  let n := outs.length
+  let outcome := fun i => pureAttempt (outs.getD i "")
+  let (tr, res) := execute (selectPref pref) outcome (List.range n)
+  let agree := project tr == itrace && resultName res == ires
+  -- spec on the implementation's own trace
+  let dispatched := (itrace.filter (·.1 == "selected")).map (·.2.1)
+  let wroteAny := itrace.any (fun e => e.1 == "wroteHeader" || e.1 == "wrote")
+  let o : Observed := Observed.mk ((List.range n).map (fun i => (i, classOfPure (outs.getD i "")))) dispatched
+    (if ires == "nil" then dispatched.getLast? else none) (ires != "nil" && !wroteAny)
+    ((itrace.filter (·.1 == "markOffline")).map (·.2.1))
+  -- C02 on the same trace: no dispatch after a write
+  let noRedispatch := (itrace.foldl (fun (st : Bool × Bool) e =>
+      if e.1 == "selected" then (st.1, st.2 || st.1) else if e.1 == "wroteHeader" || e.1 == "wrote" then (true, st.2) else st) (false, false)).2 == false
+  let spec := holds o && noRedispatch
+  let sig := if !atMostOnce o then "candidate-tried-twice" else if !reachableMeansServed o then "reachable-backend-but-request-failed"
+    else if !failsOnlyWhenExhausted o then "failed-with-untried-candidate" else if !failedAreOffline o then "failed-endpoint-not-marked-offline"
+    else if !noRedispatch then "redispatch-after-delivery" else ""
+  let names := jstrList (jget j "names")
+  let dup := names.length > 1 && names.any (fun a => names.count a > 1)
+  let branch := (if dup then "pure.dupnames." else "pure.") ++ resultName res ++ (if dispatched.length > 1 then ".failover" else "")
+  emit case agree spec branch sig (if agree && spec then "" else s!"outcomes {outs} pref {pref} names {names}: impl result {ires}, dispatched {dispatched}; model {resultName res} {selectedList tr}")
+    (toJson (resultName res))
+
+def handleStack (case : Nat) (j : Json) : IO Unit := do
+  let sc := jget j "scenario"
+  let impl := jget j "impl"
+  if jstr (jget impl "start_err") != "" then
+    emit case false true "start-error" "" (jstr (jget impl "start_err")); return
+  let eps := parseEps sc
+  let balancer := jstr (jget sc "balancer")
+  let cl := (jarr (jget impl "clients")).getD 0 Json.null
+  let cStatus := jnat (jget cl "status")
+  let cBody := unhex (jstr (jget cl "body_hex"))
+  let cHdrs := sortPairs (parsePairs (jget cl "headers"))
+  let cErr := jstr (jget cl "err")
+  let ollaErr := Olla.Driver.C02.isOllaError cStatus (jstr (jget cl "content_type")) cBody
+  let order := (jstrList (jget impl "order")).map (idxOf eps)
+  let implOffline := (eps.filter (fun e => jstr (jget (jget impl "statuses") e.name) == "offline")).map (·.idx)
+  let attemptsOf := fun (e : EpSpec) => jnat ((jarr (jget (jget impl "per_ep") e.name)).getD 0 Json.null)
+  -- endpoints the engine recorded an attempt for but that saw no request (refused / skipped)
+  let unseen := eps.flatMap (fun e => List.replicate (attemptsOf e - (order.count e.idx)) e.idx)
+  let dispatched := order ++ unseen
+  let servedBy : Option Nat := if cErr == "" && !ollaErr then
+      (eps.find? (fun e => e.resp.status == cStatus && e.resp.headers == cHdrs && e.resp.body == cBody)).map (·.idx) else none
+  let o : Observed := Observed.mk (eps.map (fun e => (e.idx, classOfKind e.kind e.opened))) dispatched servedBy ollaErr implOffline
+  let follow := (jstrList (jget impl "follow_order")).map (idxOf eps)
+  -- explored kinds: no mixing and an honest error
+  let said := eps.map (fun e => ({ name := e.idx, status := e.resp.status, headers := e.resp.headers, body := e.resp.body } : Olla.Spec.C02.Said))
+  let got : Option Olla.Spec.C02.Got := if ollaErr || cErr == "eof-before-status" then none else some { status := cStatus, headers := cHdrs, body := cBody }
+  let noMix := Olla.Spec.C02.singleAttempt said order got
+  let honest := servedBy.isSome || cStatus < 200 || cStatus ≥ 300
+  let sameReq := jbool (jget impl "same_req") || order.length ≤ 1
+  let backendOnce := eps.all (fun e => jnat (jget (jget impl "attempts") e.name) ≤ 1)
+  let spec := holds o && followupAvoidsFailed o follow && noMix && honest && sameReq && backendOnce
+  let sig := if !atMostOnce o || !backendOnce then "candidate-tried-twice" else if !reachableMeansServed o then "reachable-backend-but-request-failed"
+    else if !failsOnlyWhenExhausted o then "failed-with-untried-candidate" else if !failedAreOffline o then "failed-endpoint-not-marked-offline"
+    else if !followupAvoidsFailed o follow then "failed-endpoint-still-in-rotation" else if !noMix then "response-mixes-attempts"
+    else if !honest then "failure-reported-as-success" else if !sameReq then "retried-request-differs" else ""
+  -- model: exact for the priority balancer, a relation (some selection order explains it) otherwise
+  let cands := candidates eps
+  let runWith := fun (sel : List Nat → Option Nat) =>
+    let (tr, res) := execute sel (outcomeOf eps) cands
+    let mOrder := (contactedList tr).filter (fun i => (eps.find? (·.idx == i)).map (·.kind) != some "refuse")
+    (mOrder, Olla.Driver.C06.sortNat (offlineList tr), match res with | .served e => some e | _ => none)
+  let implTriple := (order, Olla.Driver.C06.sortNat implOffline, servedBy)
+  let possible := if balancer == "priority" then [runWith (selectPrio eps)] else (perms cands).map (fun p => runWith (selectPref p))
+  let agree := possible.contains implTriple
+  let kinds := String.intercalate "," (eps.map (fun e => if e.opened then "open" else e.kind))
+  let branch := s!"stack.{balancer}." ++ (if servedBy.isSome then (if dispatched.length > 1 then "served-after-failover" else "served-first") else "failed")
+  emit case agree spec branch sig
+    (if agree && spec then "" else s!"kinds {kinds}: contacted {order}, recorded-unseen {unseen}, client {cStatus} err '{cErr}' servedBy {servedBy}, offline {implOffline}, follow-up contacted {follow}; model possibilities {possible}")
+    (toJson (possible.map (fun t => t.1)))
+
+def handle (j : Json) : IO Unit := do
+  let case := jnat (jget j "case")
+  match jstr (jget j "kind") with
+  | "pure" => handlePure case j
+  | "stack" => handleStack case j
+  | k => emit case false true "unknown-kind" "" k
+
+def main : IO Unit := do forLines (← IO.getStdin) handle
 
 end Olla.Driver.C04
